@@ -100,6 +100,9 @@ pub fn run_c14(cfg: &RunCfg, trace: bool) -> RunOut {
                             if b.len() > remaining.len() || remaining[..b.len()] != b[..] {
                                 fail!(i, op, "read-wrong-bytes", format!("returned bytes are not the next bytes of the file (position {}, got {} bytes, {} remain)", cur.position(), b.len(), remaining.len()));
                             }
+                            if *n == READ_TO_END && b.len() != remaining.len() {
+                                fail!(i, op, "read_to_end-short", format!("read_to_end returned {} bytes although {} remain at position {}", b.len(), remaining.len(), cur.position()));
+                            }
                             if b.is_empty() && *n > 0 && !remaining.is_empty() {
                                 fail!(i, op, "read-zero-before-eof", format!("returned 0 bytes although {} bytes remain at position {}", remaining.len(), cur.position()));
                             }
